@@ -119,6 +119,19 @@ pub fn check_paths(c: &PathCase) -> CheckResult {
     };
 
     let (base, base_seen, _) = run(&no_mw, 0)?;
+    // the documented decode contract, stated independently of the implementation
+    if let Some(Err(code)) = decode_contract(c.kind, c.body_format, &req.body) {
+        ensure!(
+            base.ec == code && base_seen.is_empty(),
+            "decode-contract",
+            "kind {:?} body_format {} body {:?}: the documented contract demands code {code} without running the handler; got code {}, handler observations {:?}",
+            c.kind,
+            c.body_format,
+            String::from_utf8_lossy(&req.body),
+            base.ec,
+            base_seen
+        );
+    }
     ensure!(base.id == c.id, "response-id", "response id {} != request id {}", base.id, c.id);
     for (mode, name) in [(0u8, "handle"), (1, "handle_with_ctx"), (2, "handle_view")] {
         let (n, seen, hits) = run(&c.program, mode)?;
@@ -178,6 +191,7 @@ fn path_case() -> BoxedStrategy<PathCase> {
             BodyShape::Truncated,
             BodyShape::Random,
             BodyShape::Empty,
+            BodyShape::BadUtf8Json,
         ]),
         any::<u64>(),
         (0u8..=3).prop_flat_map(|n| Just(default_program(n)).prop_shuffle()),
